@@ -1936,6 +1936,12 @@ def paired(vk, body, cfg, native_runs=5):
     except Exception:
         pass
     vk.note("E3 rebinding inventory: " + ", ".join(sorted(CTX.used)))
+    try:
+        from . import symnp
+
+        symnp.INVENTORY.update("E3:" + u for u in CTX.used)
+    except Exception:
+        pass
     vk.note(f"E3 vacuity guard: assumption sets of {E.covers} (sub-)configurations checked for satisfiability")
     status = {o["name"]: o for o in vk.obl}
     done = seed = checks = 0
